@@ -24,6 +24,8 @@ def build(par, family="Node", names=None, attrs=None):
         nodes = [F.ValLM(names[i], i % 2) for i in range(k)]
     elif family == "FALSY":
         nodes = [F.FalsyNM(names[i], i % 2) for i in range(k)]
+    elif family == "FALSYNODE":
+        nodes = [F.FalsyNode(names[i]) for i in range(k)]  # always falsy, also as a parent with children
     elif family == "MIX":
         nodes = F.make_nodes("MIX", k)
         for i, n in enumerate(nodes):
@@ -46,7 +48,7 @@ def build_ch(ch, family="Node", names=None):
     return nodes
 
 
-READ_FAMILIES = ("Node", "NM", "LM", "AnyNode", "VAL", "FALSY", "VALLM")
+READ_FAMILIES = ("Node", "NM", "LM", "AnyNode", "VAL", "FALSY", "VALLM", "FALSYNODE")
 
 
 def evolving_universe(ctx, rng, fam, k, steps, fault_rate=0.0):
